@@ -431,11 +431,19 @@ class Interp:
             out[i] = best
         return out
 
+    def _nan_first(self, cmp):
+        """XLA's argmax/argmin reducer: a NaN beats every non-NaN value (modes that have NaN provide `o.isnan`)"""
+        isnan = getattr(self.o, "isnan", None)
+        if isnan is None:
+            return cmp
+        o = self.o
+        return lambda x, y: o.lor(cmp(x, y), o.land(isnan(x), o.lnot(isnan(y))))
+
     def p_argmax(self, e, a):
-        return self._argm(e, a, self.o.gt)
+        return self._argm(e, a, self._nan_first(self.o.gt))
 
     def p_argmin(self, e, a):
-        return self._argm(e, a, self.o.lt)
+        return self._argm(e, a, self._nan_first(self.o.lt))
 
     def _cum(self, e, a, f):
         ax = e.params["axis"]
@@ -686,10 +694,12 @@ class Interp:
             # outputs mirror the trailing value operands
             cands = list(ins)
             outs = []
+            used = set()    # several value operands of the same shape (error_if((high, low), ...)) map to the outputs in order
             for ov in e.outvars:
-                for c, iv in zip(cands, e.invars):
-                    if tuple(iv.aval.shape) == tuple(ov.aval.shape) and iv.aval.dtype == ov.aval.dtype and kind(iv.aval) != "b":
+                for k, (c, iv) in enumerate(zip(cands, e.invars)):
+                    if k not in used and tuple(iv.aval.shape) == tuple(ov.aval.shape) and iv.aval.dtype == ov.aval.dtype and kind(iv.aval) != "b":
                         outs.append(c)
+                        used.add(k)
                         break
                 else:
                     outs.append(self.lift(np.zeros(ov.aval.shape, ov.aval.dtype)))
